@@ -802,7 +802,9 @@ func (so *SimpleOptimizer) transform(node parser.Node) (parser.Expr, bool) {
 		}
 	case *parser.CallExpr:
 		if node.Func != nil {
-			_, _ = so.transform(node.Func)
+			if expr, ok = so.transform(node.Func); ok {
+				node.Func = expr
+			}
 		}
 		for i := range node.Args {
 			if expr, ok = so.transform(node.Args[i]); ok {
